@@ -30,36 +30,57 @@ def read(path):
     if not toks or toks[0] != "solid":
         raise FormatError("neither a well-sized binary STL nor an ASCII STL")
     lines = [s.split() for s in text.replace("\r\n", "\n").replace("\r", "\n").split("\n")]
-    lines = [t for t in lines if t]
-    T, normals = [], []
-    i = 1
+    lines = [t for t in lines if t]  # white space (blanks, newlines) may be used anywhere between words
+    T, normals, solids = [], [], []
+    i = 0
     while i < len(lines):
-        t = lines[i]
-        if t[0] == "endsolid":
-            break
-        if t[:2] != ["facet", "normal"] or len(t) != 5:
-            raise FormatError("facet normal expected")
-        normals.append(tuple(to_float(x) for x in t[2:5]))
-        if lines[i + 1] != ["outer", "loop"]:
-            raise FormatError("outer loop expected")
-        tri = []
-        for k in range(3):
-            v = lines[i + 2 + k]
-            if v[0] != "vertex" or len(v) != 4:
-                raise FormatError("vertex expected")
-            tri.append(tuple(to_float(x) for x in v[1:4]))
-        if lines[i + 5] != ["endloop"] or lines[i + 6] != ["endfacet"]:
-            raise FormatError("endloop/endfacet expected")
-        T.append(tuple(tri))
-        i += 7
-    else:
-        raise FormatError("endsolid missing")
-    return {"T": T, "normals": normals, "binary": False}
+        if lines[i][0] != "solid":
+            raise FormatError("solid expected")
+        name = " ".join(lines[i][1:])
+        i += 1
+        count = 0
+        while True:
+            if i >= len(lines):
+                raise FormatError("endsolid missing")
+            t = lines[i]
+            if t[0] == "endsolid":
+                i += 1
+                break
+            if t[:2] != ["facet", "normal"] or len(t) != 5:
+                raise FormatError("facet normal expected")
+            if i + 6 >= len(lines):
+                raise FormatError("truncated facet")
+            normals.append(tuple(to_float(x) for x in t[2:5]))
+            if lines[i + 1] != ["outer", "loop"]:
+                raise FormatError("outer loop expected")
+            tri = []
+            for k in range(3):
+                v = lines[i + 2 + k]
+                if v[0] != "vertex" or len(v) != 4:
+                    raise FormatError("vertex expected")
+                tri.append(tuple(to_float(x) for x in v[1:4]))
+            if lines[i + 5] != ["endloop"] or lines[i + 6] != ["endfacet"]:
+                raise FormatError("endloop/endfacet expected")
+            T.append(tuple(tri))
+            count += 1
+            i += 7
+        solids.append((name, count))
+    return {"T": T, "normals": normals, "binary": False, "solids": solids}
+
+
+def split_solids(n, k, empty_between=False, rng=None):
+    """Facet counts of k solids holding n facets in all (different counts where possible), optionally with an empty solid in between."""
+    k = max(1, min(k, n)) if n else 1
+    cuts = sorted(rng.sample(range(1, n), k - 1)) if (rng is not None and k > 1) else [n * j // k for j in range(1, k)]
+    sizes = [b - a for a, b in zip([0] + cuts, cuts + [n])]
+    if empty_between and len(sizes) >= 2:
+        sizes.insert(1, 0)
+    return sizes
 
 
 def write(path, data, d):
     """data["T"]: triangle soup.  dialect keys used: order (0: binary, 1: ASCII), eol/float/indent/trail_ws (ASCII),
-    extras (binary: non-zero normals, other header text; ASCII: solid name, real normals)."""
+    extras (binary: non-zero normals, other header text; ASCII: real normals)."""
     T = data["T"]
     extras = d.get("extras")
     if d.get("order", 0) == 0:
@@ -72,16 +93,28 @@ def write(path, data, d):
                 flat = list(nrm) + [c for p in tri for c in p]
                 f.write(struct.pack("<12fH", *(flat + [0])))
         return
+    # ASCII.  further dialect keys: solids (list of facet counts, one `solid ... endsolid` block each; tools that export one block
+    # per part / patch write such files), names ("named" | "unnamed" | "mixed"), endname (repeat the name after endsolid),
+    # blank (blank lines between facets and between solids)
     w = LineWriter(d, comment_prefix=None)
-    name = " part_1" if extras else ""
-    w.lines.append("solid" + name)
-    for tri in T:
-        nrm = (0.0, 0.0, 1.0) if extras else (0.0, 0.0, 0.0)
-        w.line("facet normal " + " ".join(fmt_float(c, d["float"]) for c in nrm))
-        w.line("  outer loop")
-        for p in tri:
-            w.line("    vertex " + " ".join(fmt_float(c, d["float"]) for c in p))
-        w.line("  endloop")
-        w.line("endfacet")
-    w.lines.append("endsolid" + name)
+    sizes = d.get("solids") or [len(T)]
+    assert sum(sizes) == len(T)
+    names_mode = d.get("names", "named" if extras else "unnamed")
+    pos = 0
+    for j, n in enumerate(sizes):
+        named = names_mode == "named" or (names_mode == "mixed" and j % 2 == 0)
+        name = (" part_%d" % (j + 1) if j % 3 else " part %d of the model" % (j + 1)) if named else ""
+        w.lines.append("solid" + name)
+        for tri in T[pos:pos + n]:
+            nrm = (0.0, 0.0, 1.0) if extras else (0.0, 0.0, 0.0)
+            w.line("facet normal " + " ".join(fmt_float(c, d["float"]) for c in nrm))
+            w.line("  outer loop")
+            for p in tri:
+                w.line("    vertex " + " ".join(fmt_float(c, d["float"]) for c in p))
+            w.line("  endloop")
+            w.line("endfacet")
+            w.blank()
+        pos += n
+        w.lines.append("endsolid" + (name if d.get("endname", True) else ""))
+        w.blank()
     w.save(path)
